@@ -175,14 +175,21 @@ def headReq (impl : String) : P Verdict := do
   let data := renderReq h ++ body
   let r := processorsParseRequest noH2 data
   let wf := decide (WFReq h)
-  let spec := if wf then some (showObsReq (some (reportReq h))) else none
-  let kf : List String := []
-  let feat := if wf then featReq h else ""
+  -- the statement's domain by the RFC grammar: any token as method (§3.1.1), obs-text in field values (§3.2); the
+  -- parser's closed method list and its UTF-8 requirement are the open findings KF.C05.unlistedMethod /
+  -- KF.C05.obsTextNotUtf8 (Props/C05Method.lean)
+  let wfAny := decide (WFReqRfc h)
+  let listed := decide (h.method ∈ supportedMethods.map ascii)
+  let utf8 := h.fields.all (fun f => decide (Utf8 f.value))
+  let spec := if wfAny then some (showObsReq (some (reportReq h))) else none
+  let kf : List String := if wfAny && !wf then
+      (if listed then [] else ["KF.C05.unlistedMethod"]) ++ (if utf8 then [] else ["KF.C05.obsTextNotUtf8"]) else []
+  let feat := if wf then featReq h else if wfAny then (if listed then "" else "M") ++ (if utf8 then "" else "O") else ""
   let o := match r with | some (some _) => "some" | some none => "none" | none => "outside"
   let n := fs.length
   let sz := if n == 0 then "h0" else if n < 10 then "h1-9" else if n < 100 then "h10-99" else if n == 100 then "h100" else "h>100"
   pure (verdictOf impl (showModelReq r) spec kf
-    s!"hreq:{if wf then "wf" else "nwf"}:{o}:{sz}:{bodyTag body}{if feat.isEmpty then "" else ":x" ++ feat}")
+    s!"hreq:{if wf then "wf" else if wfAny then "wfm" else "nwf"}:{o}:{sz}:{bodyTag body}{if feat.isEmpty then "" else ":x" ++ feat}")
 
 /-- `C05.hres <ver> <status> <reason> <fields> <body>` -/
 def headRes (impl : String) : P Verdict := do
@@ -192,13 +199,14 @@ def headRes (impl : String) : P Verdict := do
   let data := renderRes h ++ body
   let r := processorsParseResponse noH2 data
   let wf := decide (WFRes h)
-  let spec := if wf then some (showObsRes (some (reportRes h))) else none
-  let kf : List String := []
-  let feat := if wf then featFields false h.fields else ""
+  let wfRfc := decide (WFResRfc h)
+  let spec := if wfRfc then some (showObsRes (some (reportRes h))) else none
+  let kf : List String := if wfRfc && !wf then ["KF.C05.obsTextNotUtf8"] else []
+  let feat := if wf then featFields false h.fields else if wfRfc then "O" else ""
   let n := fs.length
   let sz := if n == 0 then "h0" else if n < 10 then "h1-9" else if n < 100 then "h10-99" else if n == 100 then "h100" else "h>100"
   pure (verdictOf impl (showObsRes r) spec kf
-    s!"hres:{if wf then "wf" else "nwf"}:{if r.isSome then "some" else "none"}:{sz}:{bodyTag body}{if feat.isEmpty then "" else ":x" ++ feat}")
+    s!"hres:{if wf then "wf" else if wfRfc then "wfm" else "nwf"}:{if r.isSome then "some" else "none"}:{sz}:{bodyTag body}{if feat.isEmpty then "" else ":x" ++ feat}")
 
 def showLang : Option (Option Bytes) → String
   | none => "OUTSIDE-MODEL"
